@@ -1,5 +1,6 @@
 SPECIFICATION TSpec
 CONSTANTS
+  Anns = {"both"}
   Sizes = {0}
   MaxFaults = 99
   FaultKinds = {"Flip", "Drop", "Dup", "Swap", "Cut"}
